@@ -523,3 +523,25 @@ package keeper
 //@   ensures[C09.uafo.atomic] err != nil ==> state(unwrap_ctx(goCtx)) == old(state(unwrap_ctx(goCtx)))
 //@ loop #1
 //@   invariant[C09.uafo.atomic] state(unwrap_ctx(goCtx)) == old(state(unwrap_ctx(goCtx)))
+
+// ---------------------------------------------------------------------------------------------
+// C02 (an operator's self share is the sum of the shares of its associated stakers): when a staker dissociates, the
+// old operator's self share loses exactly the shares of the delegations TO THAT OPERATOR - a delegation of the staker to
+// another operator changes nothing - and the visitor never stops the iteration except on an error.
+//@ func (*Keeper).DissociateOperatorFromStaker$1
+//@   requires keys != nil && amounts != nil && !isnil(amounts.UndelegatableShare) && len(oldOperatorAccAddr) > 0
+//@   requires err == nil
+//@   modifies state(ctx)
+//@   ensures[C02.dofs.all]   err == nil ==> !r0
+//@   ensures[C02.dofs.other] keys.OperatorAddr != associatedOperator ==> state(ctx) == old(state(ctx)) && err == nil
+//@   ensures[C02.dofs.share] err == nil && keys.OperatorAddr == associatedOperator ==>
+//@        opSelf(ctx, accstr(oldOperatorAccAddr), keys.AssetID) == old(opSelf(ctx, accstr(oldOperatorAccAddr), keys.AssetID)) - val(amounts.UndelegatableShare)
+
+// C09 (a failed association leaves no trace): nothing is written before the request has passed its checks - the staker
+// must not be associated yet when the visitor that raises the operator's self share is started.
+//@ func (*Keeper).AssociateOperatorWithStaker
+//@   flag noframe
+//@   flag pure=ClientChainExists,IsOperator,GetStakerIDAndAssetID,GetAssociatedOperator
+//@   flag havoc=IterateDelegationsForStaker,SetAssociatedOperator
+//@   before[C09.aows.checked] IterateDelegationsForStaker requires res_GetAssociatedOperator_0 == "" && res_GetAssociatedOperator_1 == nil
+//@   before[C09.aows.checked] SetAssociatedOperator requires res_GetAssociatedOperator_0 == "" && res_GetAssociatedOperator_1 == nil
